@@ -60,7 +60,11 @@ def _fmt_harness(fmt, custom=False):
         out_suffix = "(ads)" if custom else "(s)"
         # what the stand-in of _formula_to_parts hands out.  First part: the placeholders "X" / "+tok", which only the contracts of _get_leading_integer /
         # _get_charge can turn into the symbolic multiplier / charge.  Second part: the multiplier and the charge as they are written in the formula
-        hand = {"lead": "X", "tok": "+tok", "prefixes": ("iso-",) if custom else (".", "alpha-")}
+        # The charge placeholder carries the sign of the charge it stands for ("+tok" for a positive, "-tok" for a negative one), as every token that
+        # _formula_to_parts hands out does (C01: the token begins with its sign, _get_charge returns a number of that sign): code that takes the sign
+        # from the token and only the magnitude from _get_charge is as right as code that takes both from the number.
+        tok_placeholder = "-tok" if (chg < 0 if isinstance(chg, int) else bool(v.path.branch(chg.e < 0))) else "+tok"
+        hand = {"lead": "X", "tok": tok_placeholder, "prefixes": ("iso-",) if custom else (".", "alpha-")}
 
         # the stand-ins take their arguments under the names (and in the order) of the helpers they stand for, so that a call by keyword is served too
         def parts_stub(v_, formula, prefixes, suffixes):
@@ -78,7 +82,7 @@ def _fmt_harness(fmt, custom=False):
 
         def charge_stub(v_, chgstr):
             seen["charge"].append(chgstr)
-            if chgstr == "+tok":
+            if chgstr == tok_placeholder:
                 return chg
             return (1 if chgstr[:1] == "+" else -1) * int(chgstr[1:] or 1)   # C01's contract on a written token: sign, then the magnitude (1 when omitted)
         for name, arity, role, stand_in in (("_formula_to_parts", 3, _ROLE_PARTS, parts_stub), ("_get_leading_integer", 1, _ROLE_LEADING, leading_stub), ("_get_charge", 1, _ROLE_CHARGE, charge_stub)):
@@ -111,7 +115,7 @@ def _fmt_harness(fmt, custom=False):
                 raise out.exc
             r = out.value
             v.prove("helpers_get_the_right_arguments", parts_ok(given) and all(x == "XH2.5O" for x in seen["leading"])
-                    and (all(x == "+tok" for x in seen["charge"]) if with_charge else seen["charge"] == []), detail=repr(seen))
+                    and (all(x == tok_placeholder for x in seen["charge"]) if with_charge else seen["charge"] == []), detail=repr(seen))
             pre = "".join(image[k] for k in hand["prefixes"])
             mtxt = z3.If(m.e == 1, z3.StringVal(""), z3.IntToStr(m.e))
             if fmt == "unicode":
